@@ -422,18 +422,18 @@ Proof.
     pose proof (digits_val_lower ds' Hd' 0 ltac:(lia)). unfold dval.
     destruct (unit_letter u') as [y|] eqn:E'; [|lia]. destruct (unit_letter_facts _ _ E') as (_ & _ & _ & Hy). nia. }
   assert (2 ^ 62 = 4611686018427387904) as E62 by reflexivity.
-  assert (hour_ns = 3600000000000) as EH by reflexivity.
-  assert (Hs1 : sint 64 (dval (c :: r) * 24 * hour_ns) = dval (c :: r) * 24 * hour_ns)
+  assert (hour_ns = 3600000000000) as EH by reflexivity. rewrite EH in *.
+  assert (Hs1 : sint 64 (dval (c :: r) * 24 * 3600000000000) = dval (c :: r) * 24 * 3600000000000)
     by (apply sint_small; [lia|]; change (2 ^ (64 - 1)) with 9223372036854775808; lia).
-  rewrite Hs1.
+  rewrite Hs1. change (Pos.to_nat 1) with 1%nat. cbn [nth_error bind].
   destruct l as [|x l'].
-  - cbn. f_equal. cbn in Hv. lia.
+  - cbn [render_comps comps_value]. f_equal. lia.
   - assert (render_comps (x :: l') <> []) as Hn by (destruct x as [ds u]; cbn; destruct ds; discriminate).
-    destruct (render_comps (x :: l')) as [|c0 r0] eqn:ER; [congruence|]. rewrite <- ER.
     assert (render_comps (x :: l') <> [48]) as H0.
     { destruct x as [ds u]. cbn. inversion Hl as [|? ? [[Hd _] _] _]; subst. cbn in Hd.
       destruct ds as [|c1 [|c2 r1]]; [congruence| |]; cbn; discriminate. }
-    rewrite (go_parse_duration_dur _ Hc Hn H0).
+    destruct (render_comps (x :: l')) as [|c0 r0] eqn:ER; [congruence|].
+    rewrite (go_parse_duration_dur _ Hc Hn H0). rewrite <- ER.
     rewrite pd_loop_comps; [|exact Hl| |lia|lia].
     + f_equal. rewrite Z.add_0_l. apply sint_small; [lia|]. change (2 ^ (64 - 1)) with 9223372036854775808. lia.
     + clear -Hl. induction Hl as [|[ds u] l [[Hd _] _] _ IH]; cbn; [lia|]. rewrite app_length. cbn. cbn [fst] in Hd.
